@@ -478,7 +478,7 @@ fn gen(seed: u64, index: u64) -> Scn {
     let id = r.next() as u16;
     let mut t = T0 + r.below(1000);
     let msg = base_message(&mut r, axfr, id);
-    let u = msg.to_vec().expect("encode");
+    let mut u = msg.to_vec().expect("encode");
     let mk = r.below(40);
     let mut kind;
     let mut underflow = false;
@@ -550,10 +550,24 @@ fn gen(seed: u64, index: u64) -> Scn {
             kind = "pre:original-id-differs".into();
             hdr_id = id ^ (1 + r.below(0xffff) as u16);
         }
+        36 => {
+            // the same records with their owner names written out in full (no compression pointers): signed as
+            // such, valid as such
+            kind = "pre:body-uncompressed".into();
+            u = expand_pointers(&u);
+        }
         _ => {}
     }
     tf.mac = hmac(&ck, &spec_tbs(&u, &tf));
     let mut u2 = u.clone();
+    if mk == 37 {
+        // the encoding of the body changed after signing (same records, other bytes)
+        kind = "post:body-recompressed".into();
+        u2 = expand_pointers(&u);
+        if u2 != u {
+            sig = Validity::Invalid;
+        }
+    }
     u2[0..2].copy_from_slice(&hdr_id.to_be_bytes());
 
     // ---- edits after signing
@@ -759,6 +773,41 @@ fn gen(seed: u64, index: u64) -> Scn {
     }
     let now = (ft as i64 + off).max(0) as u64;
     Scn { kind, axfr, cfg, client, t, now, req, sig, ft, ff, msg, underflow }
+}
+
+/// rewrite the records after the question so that every owner name that ends in a pointer to offset 12
+/// (`example.com.`) is written out in full; A records only (no names in RDATA)
+fn expand_pointers(u: &[u8]) -> Vec<u8> {
+    let mut out = u[..12].to_vec();
+    let mut p = 12;
+    // question
+    while u[p] != 0 {
+        p += 1 + u[p] as usize;
+    }
+    p += 5;
+    out.extend_from_slice(&u[12..p]);
+    let n = u16::from_be_bytes([u[6], u[7]]) as usize + u16::from_be_bytes([u[8], u[9]]) as usize + u16::from_be_bytes([u[10], u[11]]) as usize;
+    for _ in 0..n {
+        loop {
+            let b = u[p];
+            if b == 0 {
+                out.push(0);
+                p += 1;
+                break;
+            } else if b >= 0xc0 {
+                out.extend_from_slice(&wire(&labels(ORIGIN)));
+                p += 2;
+                break;
+            } else {
+                out.extend_from_slice(&u[p..p + 1 + b as usize]);
+                p += 1 + b as usize;
+            }
+        }
+        let rdlen = u16::from_be_bytes([u[p + 8], u[p + 9]]) as usize;
+        out.extend_from_slice(&u[p..p + 10 + rdlen]);
+        p += 10 + rdlen;
+    }
+    out
 }
 
 /// what replacing byte `p` (old -> new) of a signed request does to its validity
@@ -1205,7 +1254,7 @@ fn main() {
         "C13",
         &args,
         &cases,
-        "UPDATE (1-2 added A records, optional extra additional record) and AXFR requests for example.com., signed by an encoder and RFC 8945 MAC-input constructor written in the harness (7 client keys: right key, same name other secret, same name other algorithm, unknown name, other case, other key) or by hickory's own signer; one edit per case out of: key-name case / compression, other data, fudge, original id (before signing); time, fudge, original id, error, other data, MAC truncated / extended / altered, key name, algorithm, TSIG class/TTL, Z bit, header id, record after TSIG, trailing bytes, TSIG stripped, single bit flips (header / TSIG record / anywhere), section-count +-1, byte overwrite (after signing); server clock at T + {-fudge-1..fudge+1, +-1 day, ...}; 10 server key sets, allow_update on/off, AXFR policy Deny/AllowAll/AllowSigned; time < fudge family. Non-trivial = request decoded and routed to the zone's update / transfer handler; distinct by (configuration, client key, clock, request bytes).",
+        "UPDATE (1-2 added A records, optional extra additional record) and AXFR requests for example.com., signed by an encoder and RFC 8945 MAC-input constructor written in the harness (7 client keys: right key, same name other secret, same name other algorithm, unknown name, other case, other key) or by hickory's own signer; one edit per case out of: key-name case / compression, other data, fudge, original id (before signing); time, fudge, original id, error, other data, MAC truncated / extended / altered, key name, algorithm, TSIG class/TTL, Z bit, header id, record after TSIG, trailing bytes, TSIG stripped, single bit flips (header / TSIG record / anywhere), section-count +-1, byte overwrite (after signing); server clock at T + {-fudge-1..fudge+1, +-1 day, ...}; 10 server key sets, allow_update on/off, AXFR policy Deny/AllowAll/AllowSigned; time < fudge family; body written without compression before signing / re-encoded after signing. Per accepted reply: the client verifier on the reply, on one modified reply (bit flip, ANCOUNT+NSCOUNT overflow, duplicated TSIG record, trailing bytes) and on a chained second message (first_message = false) signed by the harness with time before/at/after the previous one, several fudges, MAC intact or spoiled. Non-trivial = request decoded and routed to the zone's update / transfer handler; distinct by (configuration, client key, clock, request bytes).",
         serde_json::json!({}),
     );
 }
